@@ -677,6 +677,47 @@ def t_ordereddict_counter():
     od = OrderedDict([('b', 1), ('a', 2)])
     od['c'] = 3
     return (list(od.items()), list(od), od['a'])
+def t_islice_batches():
+    from itertools import islice
+    it = iter(range(10))
+    out = []
+    while True:
+        b = list(islice(it, 4))
+        if not b:
+            return out
+        out.append(b)
+
+def t_islice_batches_list_source():
+    from itertools import islice
+    src = ['a', 'b', 'c', 'd', 'e']
+    it = iter(src)
+    first = list(islice(it, 2))
+    second = list(islice(it, 2))
+    rest = list(it)
+    return (first, second, rest, list(islice(src, 2)), list(islice(src, 2)))
+
+def t_stepped_slice_store():
+    parts = ['a', '1', 'b', '22', '']
+    parts[1::2] = map(int, parts[1::2])
+    xs = list(range(6))
+    del xs[:2]
+    xs[0:1] = [9, 9]
+    return (parts, xs)
+
+def t_type_identity():
+    return (type(1) is int, type('a') is str, type(1) is str, type(b'') is bytes, type(1.0) in (int, float), type(True) is int)
+def t_stringio_buffer():
+    from io import StringIO
+    buf = StringIO()
+    write = buf.write
+    n = write('abc')
+    write('de')
+    first = buf.getvalue()
+    pos = buf.tell()
+    old = buf
+    buf = StringIO()
+    write('lost?')
+    return (n, first, pos, buf.getvalue(), old.getvalue(), buf is old, bool(buf))
 '''
 
 
